@@ -37,8 +37,8 @@ Definition expected (sp : spec) : disp := dmax (u_need sp) (disp_of (u_act sp)).
 
 (* [r] is the result the implementation reported for the operation.
 
-   [strict]: what happens to an outstanding delivery when the trap of its
-   signal is replaced by another command before the action ran.  The property
+   [strict]: what happens to an outstanding delivery of a signal trapped with a
+   command when that trap is replaced by another command before the action ran.  The property
    says every delivery of a trapped signal makes "its action" run exactly once;
    read strictly, the delivery stays outstanding (the action now in force must
    run).  yash-rs forgets it (TrapSet::set_action installs a state with
@@ -53,7 +53,7 @@ Definition spec_step (strict : bool) (c : N) (sp : spec) (o : op) (r : res) : sp
         | ROk =>
             mkSp a (u_need sp) (u_locked sp && negb ovr)
                  (match u_pend sp with
-                  | Yes => if strict && is_command a then Yes else Unknown
+                  | Yes => if strict && is_command a && is_command (u_act sp) then Yes else Unknown
                   | p => p
                   end)
         | _ => sp
@@ -365,3 +365,22 @@ Definition noninteractive (o : op) : bool :=
 (* the signals whose disposition entering a subshell forces to Ignore *)
 Definition forced_ignore (c : N) (ign keep : bool) (internal : disp) : bool :=
   (ign && is_int_quit c) || (keep && is_stopper c && negb (disp_eqb internal Default)).
+
+(* ---- the class of the known finding C11-retrap-pending -------------------------------- *)
+(* the operation gives a new command to a condition that has a command and
+   whose caught flag is set *)
+Definition retrap (c : N) (st : sigst) (o : op) : bool :=
+  match o, s_ent st with
+  | OSetAction c' a _ _, Some e =>
+      N.eqb c c' && is_command a && t_pending (e_cur e) && is_command (t_action (e_cur e))
+  | _, _ => false
+  end.
+
+(* no step of the history (run on the model) is of that class *)
+Fixpoint retrap_class_free (g : gstate) (gops : list gop) : bool :=
+  match gops with
+  | [] => true
+  | o :: rest =>
+      forallb (fun p => forallb (fun x => negb (retrap (fst p) (snd p) x)) (expand g o)) g
+      && retrap_class_free (gstep g o) rest
+  end.
